@@ -646,3 +646,42 @@ TARGETS.append(
              ('_t.transcript.location.end', {'_t': 'txmodel'}, '(t_end t)', 'Z'),
              ('_t.is_cds_start_nf()', {'_t': 'txmodel'}, '(t_nf t)', 'bool')],
          types={'resvrec': '(res vrec)', 'geneseq': 'seq'}))
+
+# (18) parser/REDItoolsParser.py REDItoolsRecord.convert_to_variant_records: the per-transcript loop (slice from
+#      `records = []`): try / `except ValueError as e` around get_transcript_index with the intron test on the
+#      exception, re-raise otherwise, gene coordinate, get_valid_subs, one record per substitution   vs Vep.redi_loop 1
+#      `_ids` (the row's transcripts of feature 'transcript') is the parameter txs; a transcript is the model's rtx.
+#      Trusted: tx_model.get_transcript_index is Vep.get_transcript_index (TIntron = ValueError(ERROR_INDEX_IN_INTRON),
+#      TRange = the other ValueError), self.get_valid_subs(..) is Vep.get_valid_subs (target 8), the VariantRecord built
+#      for a substitution is the model's (transcript, gene position, ref, alt).
+TARGETS.append(
+    dict(out='Py_REDItoolsParser', file='moPepGen/parser/REDItoolsParser.py', cls='REDItoolsRecord',
+         func='convert_to_variant_records', coq_name='py_redi_convert', imports=['Model.Vep'],
+         args=[('th', 'thr'), ('r', 'redi'), ('txs', 'list rtx')],
+         types={'sub': '(Z * Z)', 'rtx': 'rtx', 'txm2': 'rtx', 'geneid': 'gene', 'genem': 'gene', 'rrec': 'rrec', 'tidx': 'tidx'},
+         params={'anno': (None, 'opaque'), 'min_coverage_alt': (None, 'opaque'), 'min_frequency_alt': (None, 'opaque'),
+                 'min_coverage_rna': (None, 'opaque'), 'min_coverage_dna': (None, 'opaque')},
+         pre_env={'_ids': ('txs', 'list rtx')},
+         slice=('records = []', 'for tx_id in _ids:'), slice_pre=[], slice_post=['return records'],
+         var_types={'records': 'list rrec'},
+         allow_try=True, caught_types=['ValueError'], reraise='ErrValue',
+         res_ctors=['ErrValue', 'ErrStart', 'ErrStop', 'ErrIndex'],
+         res_types={'tidx': {'ok': 'TOk', 'errs': ['TRange', 'TIntron']}},
+         ret_ty='list rrec', res_ty='res (list rrec)', ok='(Ok {})', stub='ErrStop',
+         errors={'KeyError': 'ErrIndex', 'UnboundLocalError': 'ErrStop'}, raises=[],
+         ignore_stmts=[r'^genomic_location = ', r'^strand = ', r'^location = ', r'^_id = ', r'^attrs = '],
+         ignore_may_store=['location', '_id', 'attrs'],     # only named in the untranslated arguments of VariantRecord(..)
+         patterns=[('anno.transcripts[_t]', {'_t': 'rtx'}, '{_t}', 'txm2'),
+                   ('_m.get_transcript_index(self.position - 1)', {'_m': 'txm2'},
+                    '(get_transcript_index (g_strand (x_gene {_m})) (x_exons {_m}) (r_pos r - 1))', 'resx:tidx:Z'),
+                   ('_e.args[0] == ERROR_INDEX_IN_INTRON', {'_e': 'tidx'}, '(match {_e} with TIntron => true | _ => false end)', 'bool'),
+                   ('_m.transcript.gene_id', {'_m': 'txm2'}, '(x_gene {_m})', 'geneid'),
+                   ('anno.genes[_g]', {'_g': 'geneid'}, '{_g}', 'genem'),
+                   ('anno.coordinate_genomic_to_gene(self.position - 1, _g)', {'_g': 'geneid'}, '(g2gene {_g} (r_pos r - 1))', 'res Z'),
+                   ('self.get_valid_subs(min_coverage_alt=min_coverage_alt, min_frequency_alt=min_frequency_alt, min_coverage_rna=min_coverage_rna, min_coverage_dna=min_coverage_dna)',
+                    {}, '(get_valid_subs th r)', 'opt:KeyError:list sub'),
+                   ('_s[0]', {'_s': 'sub'}, '(fst {_s})', 'Z'), ('_s[1]', {'_s': 'sub'}, '(snd {_s})', 'Z'),
+                   ('mk_record__(_t, _p, _r, _a)', {'_t': 'rtx', '_p': 'Z', '_r': 'Z', '_a': 'Z'},
+                    '(x_id {_t}, {_p}, {_r}, {_a})', 'rrec')],
+         stmt_rewrites=[("record = VariantRecord(location=location, ref=ref, alt=alt, _type='RNAEditingSite', _id=_id, attrs=attrs)", 'record = mk_record__(tx_id, position, ref, alt)')],
+         stmt_patterns=[('records.append(_x)', {'_x': 'rrec'}, 'records', '({cur} ++ [{_x}])')]))
